@@ -54,6 +54,7 @@ type vrReverseClient struct {
 	adminservice.AdminServiceClient
 	mu      sync.Mutex
 	streams map[history.ClusterShardID][]*vfClientStream
+	fail    map[history.ClusterShardID]int // number of coming stream opens towards this shard that fail
 }
 
 func (c *vrReverseClient) StreamWorkflowReplicationMessages(ctx context.Context, opts ...grpc.CallOption) (adminservice.AdminService_StreamWorkflowReplicationMessagesClient, error) {
@@ -67,6 +68,13 @@ func (c *vrReverseClient) StreamWorkflowReplicationMessages(ctx context.Context,
 		return int32(n)
 	}
 	key := history.ClusterShardID{ClusterID: get(history.MetadataKeyServerClusterID), ShardID: get(history.MetadataKeyServerShardID)}
+	c.mu.Lock()
+	if c.fail[key] > 0 {
+		c.fail[key]--
+		c.mu.Unlock()
+		return nil, fmt.Errorf("verif: local server refuses the stream")
+	}
+	c.mu.Unlock()
 	cs := newVfClientStream(ctx)
 	c.mu.Lock()
 	c.streams[key] = append(c.streams[key], cs)
